@@ -708,10 +708,16 @@ func (s *Netceptor) RemoveLocalServiceAdvertisement(service string) error {
 	s.serviceAdsLock.Lock()
 	defer s.serviceAdsLock.Unlock()
 	n, ok := s.serviceAdsReceived[s.nodeID]
-	connType := n[service].ConnType
-	if ok {
-		delete(n, service)
+	if !ok {
+		return nil
 	}
+	ad, ok := n[service]
+	if !ok {
+		// Already withdrawn, e.g. by an earlier Close of the same listener.
+		return nil
+	}
+	connType := ad.ConnType
+	delete(n, service)
 	sa := &serviceAdvertisementFull{
 		ServiceAdvertisement: &ServiceAdvertisement{
 			NodeID:   s.nodeID,
